@@ -23,7 +23,7 @@ func c10() {
 
 	states := []string{"spin", "probe", "sleep", "pipe", "futex"}
 	sizes := []int{1, 2, 4, 8, 16, 32, 64}
-	n := run.N(56, 2000)
+	n := run.N(112, 4000)
 	raceEvery := 4
 	var mu sync.Mutex
 	signatures := map[string]bool{}
@@ -156,6 +156,10 @@ func c10() {
 		// the parent-visible state after the load
 		for tid, v := range atLoad {
 			m, _ := v.(map[string]any)
+			if fmt.Sprint(m["Exiting"]) == "1" {
+				run.Count("exiting_tasks_ignored_in_snapshots", 1)
+				continue // the kernel skips tasks that are already exiting; they never run user code again
+			}
 			if tsyncOn && fmt.Sprint(m["Seccomp"]) != "2" {
 				run.Violation("thread-without-filter-at-load", fmt.Sprintf("%s: right after LoadFilter returned nil with thread-sync, task %s has Seccomp=%v", desc, tid, m["Seccomp"]), replay)
 				return
@@ -163,6 +167,9 @@ func c10() {
 		}
 		for tid, v := range after {
 			m, _ := v.(map[string]any)
+			if fmt.Sprint(m["Exiting"]) == "1" {
+				continue
+			}
 			if tsyncOn && fmt.Sprint(m["Seccomp"]) != "2" {
 				run.Violation("thread-without-filter", fmt.Sprintf("%s: task %s has Seccomp=%v after a nil thread-sync load", desc, tid, m["Seccomp"]), replay)
 				return
